@@ -109,8 +109,11 @@ class Recorder(AgentBasedSimulation):
         self.agents = wrapped.agents
         self.calls = []
         self.resps = []
+        self.decoy = None         # callable: pokes a SECOND instance of the wrapper class (see Decoy)
 
     def _do(self, call, thunk, kind, agent_id=None, arg=None):
+        if self.decoy is not None:
+            self.decoy()
         n0 = len(self.inner.ilog)
         try:
             val = thunk()
@@ -171,3 +174,29 @@ class DynRecorder(Recorder, DynamicOrderSimulation):
     @next_agent.setter
     def next_agent(self, value):
         raise AttributeError("read-only")
+
+
+class Decoy:
+    """A second, independent instance of the wrapper class under test over its own scripted
+    simulation, poked before every recorded call on the first one (reset / a step in which everybody
+    acts / observations).  Two instances share nothing, so the recorded behaviour must not change;
+    state kept on the class or the module instead of the instance makes it change."""
+
+    def __init__(self, wrapper, make_action):
+        self.w, self.make_action, self.n = wrapper, make_action, 0
+
+    def __call__(self):
+        self.n += 1
+        try:
+            if self.n % 4 == 1:
+                self.w.reset()
+            elif self.n % 4 == 3:
+                for k in self.w.agents:
+                    self.w.get_obs(k)
+            else:
+                self.w.step({k: self.make_action(self.w, k) for k, a in self.w.agents.items()
+                             if hasattr(a, "action_space") and hasattr(a, "observation_space")})
+        except TimeoutError:
+            raise
+        except Exception:
+            pass
